@@ -10,7 +10,10 @@ EVIDENCE = dict(
          "-simulate behaviours for 3 processes x 2 calls x streams <= 4 tokens is replayed on real contentstream.Parser "
          "goroutines gated by the verif hook; non-trivial = schedule with >= 1 context switch or >= 2 calls in a process. "
          "(2) histories of extractions of generated documents of every format (each alone in a fresh process / after others / after failing inputs / "
-         "concurrent under the race detector) validated by DeterminismTrace.tla; distinct by schedule / history seed.",
+         "concurrent under the race detector) validated by DeterminismTrace.tla; distinct by schedule / history seed. The documents include operation families on ONE object: "
+         "one low-level reader and one extractor asked several times and in several page orders (handle-*, incl. tabula.FromReader and multi-revision "
+         "files with object streams), selections forked from one base (fork-*), one path rewritten (swap-*), and one chunk collection rendered and "
+         "exported repeatedly (coll-*: each operation alone, twice, and after each other operation).",
     assumptions=["real-goroutine schedules outside the gated parser are sampled, not enumerated",
                  "the Go race detector is an observation device"],
 )
